@@ -10,7 +10,7 @@ func init() {
 }
 
 func genC03(r *PRNG, tier string) *Scenario {
-	big := tier == "thorough" && r.Chance(1, 4)
+	big := r.Chance(1, 12) || (tier == "thorough" && r.Chance(1, 4))
 	scn := &Scenario{Prop: "C03", Class: "conformant", Seed: r.Uint64() >> 1, Sched: genSched(r)}
 	realIsServer := r.Bool()
 	comp := r.Chance(1, 2)
